@@ -104,6 +104,13 @@ pub struct Exec3Result {
 
 /// `inputs[k]` = the three parties' local values of the k-th Input node.
 pub fn exec3(g: &Graph, inputs: &[[PV; 3]], seeds: [[u8; 16]; 3]) -> Exec3Result {
+    exec3_with(g, inputs, seeds, None)
+}
+/// `ideal_prf`: when given, a PRF node evaluated by a party on key bytes `k` with counter `iv`
+/// returns `ideal_prf(k, iv, type)` instead of the AES-based value: the masks are idealised as
+/// independent uniform values, one per (key, counter), the same for every party holding the key.
+pub type IdealPrf<'a> = &'a mut dyn FnMut(&[u8], u64, &Type) -> Value;
+pub fn exec3_with(g: &Graph, inputs: &[[PV; 3]], seeds: [[u8; 16]; 3], mut ideal_prf: Option<IdealPrf>) -> Exec3Result {
     let mut evs: Vec<SimpleEvaluator> = seeds.iter().map(|s| SimpleEvaluator::new(Some(*s)).unwrap()).collect();
     for e in evs.iter_mut() {
         let _ = e.preprocess(&g.get_context());
@@ -134,9 +141,13 @@ pub fn exec3(g: &Graph, inputs: &[[PV; 3]], seeds: [[u8; 16]; 3]) -> Exec3Result
                             let ex: Option<Vec<Value>> = deps.iter().map(|d| d.extract()).collect();
                             match ex {
                                 Some(vs) => {
-                                    let n2 = node.clone();
-                                    let ev = &mut evs[p];
-                                    match observe(|| ev.evaluate_node(n2, vs)) { Outcome::Ok(v) => PV::Val(v), _ => PV::Poison }
+                                    if let (Some(f), Operation::PRF(iv, t)) = (ideal_prf.as_mut(), &op) {
+                                        match vs[0].access_bytes(|b| Ok(b.to_vec())) { Ok(k) => PV::Val(f(&k, *iv, t)), Err(_) => PV::Poison }
+                                    } else {
+                                        let n2 = node.clone();
+                                        let ev = &mut evs[p];
+                                        match observe(|| ev.evaluate_node(n2, vs)) { Outcome::Ok(v) => PV::Val(v), _ => PV::Poison }
+                                    }
                                 }
                                 None => PV::Poison,
                             }
